@@ -112,6 +112,12 @@ def run(ctx):
                 cases.append(("// @%s %s (see @%s)" % (k, ARGS[k][0], other), SITE_OF[k], k))
                 cases.append(("// @%s %s @%s %s" % (k, ARGS[k][0], other, ARGS[other][0]), SITE_OF[k], k))
                 cases.append(("// old: // @%s %s" % (k, ARGS[k][0]), SITE_OF[k], k))
+        # very long runs of blanks / tabs where the grammar allows "optional blanks" (a reader that looks at a prefix of the line only)
+        for nb in (40, 57, 62, 63, 64, 65, 100, 300, 5000):
+            for ch in (" ", "\t"):
+                cases.append(("//" + ch * nb + "@" + k + " " + ARGS[k][0], SITE_OF[k], k))
+                cases.append(("// @" + k + ch * nb + ARGS[k][0], SITE_OF[k], k))
+                cases.append(("// @" + k + " " + ARGS[k][0] + ch * nb + "tail", SITE_OF[k], k))
         cases.append(("/* @%s %s */" % (k, ARGS[k][0]), SITE_OF[k], k))
         cases.append(("/*@%s*/" % k, SITE_OF[k], k))
     # fuzzed printable / multi-byte strings
